@@ -40,6 +40,11 @@ pub enum Call {
     DropOwn,
     TickB,
     IncB,
+    /// reset() of a (possibly finished) bar
+    Reset,
+    /// liveness of the most recently enabled steady ticker: yield until a steady-tick thread has
+    /// redrawn the bar since that enable call started
+    AwaitTick,
 }
 
 #[derive(Clone, Copy, Debug, PartialEq, Eq, Hash)]
@@ -145,6 +150,20 @@ pub fn programs_for(family: &str, tier: &str) -> Vec<Program> {
                     v.push(Program { family: "C08", multi: false, ticker: true, share: Share::Clone, threads: vec![vec![a], vec![b], vec![c]] });
                 }
             }
+            // liveness of a (re-)enabled ticker after histories that let an earlier ticker thread exit on
+            // its own: the bar must be redrawn without manual ticks after the last enable call
+            for en in [Call::Enable, Call::EnableShort] {
+                for hist in [vec![en, Call::AwaitTick], vec![en, Call::Finish, Call::Reset, en, Call::AwaitTick], vec![en, Call::Disable, en, Call::AwaitTick], vec![en, Call::Abandon, Call::Reset, en, Call::AwaitTick], vec![en, en, Call::AwaitTick], vec![en, Call::Reset, en, Call::AwaitTick]] {
+                    v.push(Program { family: "C08", multi: false, ticker: false, share: Share::Clone, threads: vec![hist.clone()] });
+                    if en == Call::Enable {
+                        v.push(Program { family: "C08", multi: true, ticker: false, share: Share::Clone, threads: vec![hist] });
+                    }
+                }
+                v.push(Program { family: "C08", multi: false, ticker: true, share: Share::Clone, threads: vec![vec![Call::Finish, Call::Reset, en, Call::AwaitTick]] });
+                // (finish and reset stay in one thread: the harness' finish_returned flag is only
+                // meaningful when reset() is ordered after finish() by the program itself)
+                v.push(Program { family: "C08", multi: false, ticker: true, share: Share::Clone, threads: vec![vec![Call::Tick], vec![Call::Finish, Call::Reset, en, Call::AwaitTick]] });
+            }
         }
         "L07" => {
             let calls: Vec<Call> = vec![Call::Inc(1), Call::Inc(u64::MAX), Call::Dec(1), Call::Dec(3), Call::Inc(5)];
@@ -190,6 +209,20 @@ pub fn programs_for(family: &str, tier: &str) -> Vec<Program> {
                     for &c in &two {
                         if thorough || (a != b) {
                             v.push(Program { family: "L02", multi: true, ticker: false, share: Share::Clone, threads: vec![vec![a, b], vec![c]] });
+                        }
+                    }
+                }
+            }
+            // three threads on members of one MultiProgress (two bars): every multiset of single calls
+            // (thorough) / the combinations that mix both bars with a structural change (quick)
+            let three: Vec<Call> = vec![Call::Inc(1), Call::IncB, Call::Finish, Call::MpPrintln, Call::MpAdd, Call::MpRemove, Call::DropOwn];
+            for i in 0..three.len() {
+                for j in i..three.len() {
+                    for k in j..three.len() {
+                        let (a, b, c) = (three[i], three[j], three[k]);
+                        let quick_pick = i == 0 && j == 1 && k >= 2;
+                        if thorough || quick_pick {
+                            v.push(Program { family: "L02", multi: true, ticker: false, share: Share::Clone, threads: vec![vec![a], vec![b], vec![c]] });
                         }
                     }
                 }
@@ -244,6 +277,8 @@ struct Shared {
     disable_returned: AtomicBool,
     violation: Mutex<Option<String>>,
     ticks_after_finish: AtomicU64,
+    /// steady-tick thread ticks seen when the latest enable_steady_tick call started
+    enable_mark: AtomicU64,
 }
 
 #[derive(Clone)]
@@ -306,10 +341,31 @@ fn do_call(c: Call, pb: &ProgressBar, w: &World, sh: &Shared) {
         Call::Dec(x) => pb.dec(x),
         Call::Msg => pb.set_message("m"),
         Call::Update => pb.update(|s| s.set_pos(3)),
-        Call::Enable => pb.enable_steady_tick(Duration::from_secs(3600)),
+        Call::Enable => {
+            sh.enable_mark.store(sh.ticker_ticks.load(Ordering::SeqCst), Ordering::SeqCst);
+            pb.enable_steady_tick(Duration::from_secs(3600))
+        }
         Call::EnableShort => {
             clock::set_step_ns(5_000_000);
+            sh.enable_mark.store(sh.ticker_ticks.load(Ordering::SeqCst), Ordering::SeqCst);
             pb.enable_steady_tick(Duration::from_millis(1))
+        }
+        Call::Reset => {
+            // a steady-tick thread never ticks a finished bar (it checks under the state lock), so a
+            // tick seen from here on happens after reset() took effect
+            sh.finish_returned.store(false, Ordering::SeqCst);
+            pb.reset();
+        }
+        Call::AwaitTick => {
+            let mark = sh.enable_mark.load(Ordering::SeqCst);
+            let mut spins = 0;
+            while sh.ticker_ticks.load(Ordering::SeqCst) == mark {
+                thread::yield_now();
+                spins += 1;
+                if spins > 60 {
+                    oracle("ticker: steady tick was enabled on an unfinished bar but no steady-tick thread ever redraws it (yielded 60 times with nothing else runnable making a tick)".into());
+                }
+            }
         }
         Call::Disable => {
             pb.disable_steady_tick();
@@ -391,6 +447,7 @@ pub fn execute(p: &Program, timeouts: usize, obs: &Obs) {
         disable_returned: AtomicBool::new(false),
         violation: Mutex::new(None),
         ticks_after_finish: AtomicU64::new(0),
+        enable_mark: AtomicU64::new(0),
     });
     let has_enable_call = p.uses_ticker();
     let spy = Spy::new(30, 12, false);
